@@ -185,9 +185,11 @@ def f2(prog, ctx):
             continue
         sts = {}
         for lhs, rhs, st, kind in query.stores(f):
-            m = re.match(r"(.*parse_dirs)\[(\d+)\]$", render(lhs))
-            if m and rhs is not None:
-                sts.setdefault(int(m.group(2)), []).append((st, render(rhs)))
+            l0 = lhs.strip()
+            if l0.k == "ArraySubscriptExpr" and render(l0.children[0]).endswith("parse_dirs") and rhs is not None:
+                slot_no = l0.children[1].const_value()      # a literal, or a named constant / enumerator
+                if slot_no is not None:
+                    sts.setdefault(int(slot_no), []).append((st, render(rhs)))
         want = {0: "dist_conf_dir", 1: "etc_conf_dir"}
         ok = True
         for slot, p in want.items():
@@ -360,7 +362,43 @@ def f6b_f7b(prog, ctx):
         ctx.inconclusive("F7", "the path of an element is the name it was found under", "", str(e))
 
 
+def f8_history_complete(prog, ctx):
+    """F8  the history lists every file that was read: the functions that collect it only append.  An element that is released
+    or squeezed out on a path that still ends in success is missing from what econf_readDirsHistory() hands out (the merged
+    read does not miss it: merge_econf_files would have masked it anyway) - the two variants disagree about the files
+    consulted."""
+    import re as _re
+    n = 0
+    for name in ("check_conf_dir", "traverse_conf_dirs", "readConfigHistoryWithCallback"):
+        if not prog.has_fn(name):
+            continue
+        f = prog.fn(name)
+        ctx.touch(f)
+        cfg = f.cfg
+        drops = []
+        for c in f.calls(("econf_free", "econf_freeFile")):
+            a = c.call_args()
+            if a and _re.match(r"^\(?\*?key_files\)?\[", render(a[0])):
+                drops.append((c, "releases %s" % render(a[0])))
+        for c in f.calls(("memmove", "memcpy")):
+            a = c.call_args()
+            if a and _re.match(r"^&?\(?\*?key_files\)?\[", render(a[0])):
+                drops.append((c, "moves the elements behind %s down" % render(a[0]).lstrip("&")))
+        for c, what in drops:
+            n += 1
+            vals = cfg.returned_values_from(cfg.block_of(c))
+            if 0 in vals or (None in vals and name != "readConfigHistoryWithCallback"):
+                ctx.fail("F8", "%s only appends to the history" % name, c.where,
+                         "%s and can still return success: a file that was read is not in the history econf_readDirsHistory() hands out, "
+                         "although the merged read consulted it" % what, key="history-drop:%s" % name)
+            else:
+                ctx.ok("F8", "%s only appends to the history" % name, c.where, "%s only on the way to a failure return (%s)" % (what, sorted(str(v) for v in vals)))
+        if not drops:
+            ctx.ok("F8", "%s only appends to the history" % name, f.where, "no element is released or moved")
+
+
 def run(prog, ctx):
+    f8_history_complete(prog, ctx)
     f6b_f7b(prog, ctx)
     f1_f3_f5(prog, ctx)
     f2(prog, ctx)
